@@ -15,6 +15,7 @@ theorem verdict :
 #print axioms apply_wf
 #print axioms apply_wf_partial
 #print axioms untouched_bytes
+#print axioms untouched_leaf_bytes
 #print axioms ops_atomic
 #print axioms ops_atomic_fold
 #print axioms cond_unmet
